@@ -25,7 +25,7 @@ def walks(n, rng, depth):
     return out
 
 
-def sig(scen, kind, detail):
+def sig(scen, kind, detail, rec=None):
     return {"family": "radiotap", "kind": kind}
 
 
